@@ -578,6 +578,15 @@ def setitem(it, obj, idx, v, node=None):
             raise SymRaise(ExcValue(type(e), e.args), node)
         it.cx.log_write(("native", id(obj), idx if isinstance(idx, (str, int)) else repr(idx)))
         return
+    if type(obj).__module__.startswith("pandas.") and not deep_has_sym(v):
+        # a concrete pandas object updated with a concrete value: performed natively (as every other pandas operation on the
+        # concrete tables of a contract), and logged as a write to that object
+        try:
+            obj[idx] = v
+        except Exception as e:
+            raise SymRaise(ExcValue(type(e), e.args), node)
+        it.cx.log_write(("native", id(obj), idx if isinstance(idx, (str, int)) else repr(idx)))
+        return
     raise OutOfSubset(f"subscript store on native {type(obj).__name__}", node)
 
 
